@@ -1,4 +1,5 @@
 import Cgm.Lemmas.AuditCmd
 import Cgm.Props.C11
 import Cgm.Props.C11b
+import Cgm.Props.C11c
 #audit_namespace Cg.C11
